@@ -85,10 +85,23 @@ def main():
         return re.findall(r"Self::(\w+)", m.group(1)) if m else None
     tables = {}
     unmatched_t = []
+    # a table whose pattern no longer matches (the predicate or the enum was rewritten in another form) keeps the
+    # documented table — as for the numeric constants, the behavioural correspondence (cfg.* ops through the real
+    # serde and the real predicates) then decides; an unmatched pattern never raises an alarm by itself
+    DOC = {
+        "cipherNames": [("aes-128-gcm", "Aes128Gcm"), ("aes-256-gcm", "Aes256Gcm"), ("chacha20-poly1305", "ChaCha20Poly1305"), ("chacha20-ietf-poly1305", "ChaCha20Poly1305"),
+                        ("2022-blake3-aes-128-gcm", "Aead2022Blake3Aes128Gcm"), ("2022-blake3-aes-256-gcm", "Aead2022Blake3Aes256Gcm"),
+                        ("2022-blake3-chacha8-poly1305", "Aead2022Blake3ChaCha8Poly1305"), ("2022-blake3-chacha20-poly1305", "Aead2022Blake3ChaCha20Poly1305")],
+        "ciphers2022": ["Aead2022Blake3Aes128Gcm", "Aead2022Blake3Aes256Gcm", "Aead2022Blake3ChaCha8Poly1305", "Aead2022Blake3ChaCha20Poly1305"],
+        "ciphersEih": ["Aead2022Blake3Aes128Gcm", "Aead2022Blake3Aes256Gcm"],
+        "modeNames": [("tcp", "Tcp"), ("udp", "Udp"), ("tcp_and_udp", "TcpAndUdp"), ("quic", "Quic"), ("tcp_and_quic", "TcpAndQuic")],
+        "modeTcp": ["Tcp", "TcpAndUdp", "TcpAndQuic"], "modeUdp": ["Udp", "TcpAndUdp"], "modeQuic": ["Quic", "TcpAndQuic"],
+        "protocolNames": [("shadowsocks", "Shadowsocks"), ("vmess", "VMess"), ("trojan", "Trojan")],
+    }
     def putt(name, value):
         if value is None or value == []:
             unmatched_t.append(name)
-            value = []
+            value = DOC[name]
         tables[name] = value
     putt("cipherNames", renames(enum_body(aead, "CipherKind")))
     putt("ciphers2022", match_set(aead, "is_aead_2022"))
